@@ -83,6 +83,13 @@ var handlers = map[string]func(json.RawMessage) (any, error){
 		}
 		return vrun.Run(&req), nil
 	},
+	"engine": func(b json.RawMessage) (any, error) {
+		var req vrun.EngineRequest
+		if err := json.Unmarshal(b, &req); err != nil {
+			return nil, err
+		}
+		return vrun.RunEngine(&req), nil
+	},
 	"func": func(b json.RawMessage) (any, error) {
 		var req vrun.FuncRequest
 		if err := json.Unmarshal(b, &req); err != nil {
@@ -317,6 +324,25 @@ func CallFunction(req *vrun.FuncRequest) *vrun.FuncAnswer {
 			panic("harness failure: " + cerr.Harness)
 		}
 		return &vrun.FuncAnswer{ProcessDeath: cerr.Death}
+	}
+	return ans
+}
+
+// CallEngine sends an engine-API request to the shared worker.
+func CallEngine(req *vrun.EngineRequest) *vrun.EngineAnswer {
+	ans := &vrun.EngineAnswer{}
+	wd := time.Duration(req.WatchdogMs) * time.Millisecond
+	if wd <= 0 {
+		wd = 15 * time.Second
+	}
+	if cerr := sharedWorker.Call("engine", req, ans, wd+15*time.Second); cerr != nil {
+		if cerr.Harness != "" {
+			panic("harness failure: " + cerr.Harness)
+		}
+		return &vrun.EngineAnswer{ProcessDeath: cerr.Death}
+	}
+	if ans.HarnessErr != "" {
+		panic("harness failure: " + ans.HarnessErr)
 	}
 	return ans
 }
